@@ -69,6 +69,12 @@ CLAIMS = {
         note=A1 + 'ASSUMED callee contracts (dispatch layer decided in C02): Function+Function, Function*Function, &Parameter*Function are pure and compute sum/product up to an explicit (uninterpreted) epsilon-drop remainder. Preconditions (observations): no id overflow, oneofs set. Defect D13 (already-removed constraints dropped) was found by this check and repaired in /repo (fix: 7b9b39a).',
         technique='contract-based deductive verification (Verus) of mechanically extracted Rust functions + ghost lemmas evaluating the constructed expression',
         ref='DESIGN 6 C09'),
+    'C10': dict(
+        text='Deductive proof (Verus) of the real text of ParametricInstance::with_parameters (a declared parameter without a value => Err; otherwise objective and every active constraint are the C03 partial evaluation of the parametric functions by the parameter values - hence equal value at every (x,p) - '
+             'with decision variables, sense, constraint ids/order, removed constraints, hints, dependencies, description unchanged and the supplied values recorded), of From<Instance> for ParametricInstance, From<State>/<Parameters>, and of the partial_evaluate callees; round-trip lemma for the empty assignment.',
+        note=A1 + 'ASSUMED callee contracts: Quadratic/Polynomial::partial_evaluate (see C03). The logging-only loop over missing parameters is dropped by a declared substitution.',
+        technique='contract-based deductive verification (Verus) of mechanically extracted Rust functions',
+        ref='DESIGN 6 C10'),
 }
 NA = {
     'C06': 'evaluate_samples is built from FnMut closures capturing &mut state and iterator adapters over HashMap<OrderedFloat,..>: rejected by Verus, far beyond measured Kani limits; leaf lookups alone do not decide the property (DESIGN 6 C06)',
